@@ -44,19 +44,30 @@ func directiveInsertWordBreaks(value data.Value, args []data.Value) data.Value {
 	var (
 		input    = htmlEscape(value.String())
 		maxChars = int(args[0].(data.Int))
-		chars    = 0
+		chars    = 0           // characters since the last break opportunity
+		inEntity = false       // inside a character reference, which counts as one character
 		output   *bytes.Buffer // create the buffer lazily
 	)
 	for i, ch := range input {
-		switch {
-		case ch == ' ':
-			chars = 0
-		case chars >= maxChars:
+		if chars >= maxChars && ch != ' ' {
 			if output == nil {
 				output = bytes.NewBufferString(input[:i])
 			}
 			output.WriteString("<wbr>")
-			chars = 1
+			chars = 0
+		}
+		switch {
+		case inEntity && ch == ';':
+			inEntity = false
+			chars++
+		case inEntity && ch == ' ':
+			inEntity = false
+			chars = 0
+		case inEntity:
+		case ch == '&':
+			inEntity = true
+		case ch == ' ':
+			chars = 0
 		default:
 			chars++
 		}
